@@ -139,19 +139,57 @@ def _parse(out, r):
     if re.search(r'Assumption .* is false', out):
         r.assume_failed = True
     # PrintT values: lines that look like TLA values and are not TLC chatter
-    for line in out.splitlines():
-        s = line.strip()
-        if s.startswith('<<') and s.endswith('>>'):
-            try:
-                r.prints.append(tlaval.parse(s))
-            except Exception:
-                pass
+    # TLC pretty-prints long values over several lines: collect by bracket matching
+    lines = out.splitlines()
+    i = 0
+    while i < len(lines):
+        s = lines[i]
+        if s.startswith('<<'):
+            buf = s
+            j = i
+            while _depth(buf) > 0 and j + 1 < len(lines) and j - i < 400:
+                j += 1
+                buf += '\n' + lines[j]
+            if _depth(buf) == 0:
+                try:
+                    r.prints.append(tlaval.parse(buf))
+                    i = j
+                except Exception:
+                    pass
+        i += 1
     # error trace
     for m in re.finditer(r'State (\d+): <([^>]*)>\n((?:/\\ .*\n|\s+.*\n)*)', out):
         r.error_trace.append((m.group(2), m.group(3)))
     # coverage: "<Action line .. of module M>: distinct:total"
     for m in re.finditer(r'<(\w+) line \d+, col \d+ to line \d+, col \d+ of module (\w+)>: (\d+):(\d+)', out):
         r.coverage[m.group(1)] = r.coverage.get(m.group(1), 0) + int(m.group(4))
+
+
+def _depth(s):
+    """nesting depth of << [ { ( at the end of s, ignoring string literals"""
+    d = 0
+    instr = False
+    k = 0
+    n = len(s)
+    while k < n:
+        ch = s[k]
+        if instr:
+            if ch == '\\':
+                k += 1
+            elif ch == '"':
+                instr = False
+        elif ch == '"':
+            instr = True
+        elif s.startswith('<<', k):
+            d += 1; k += 1
+        elif s.startswith('>>', k):
+            d -= 1; k += 1
+        elif ch in '[{(':
+            d += 1
+        elif ch in ']})':
+            d -= 1
+        k += 1
+    return d
 
 
 def sany(module, cwd=None):
